@@ -89,8 +89,13 @@ def extract(repo):
         proto, creds, fn = spec[:3]
         mode = spec[3] if len(spec) > 3 else 'bytewise'
         cls = socks.SOCKS4 if proto == '4' else socks.SOCKS5
-        tables[name] = [summary(socks, cls(addr, auth if creds else None), fn(b), mode)
-                        for b in range(256)]
+        def entry(b):
+            try:
+                client = cls(addr, auth if creds else None)
+            except Exception:       # a fact, not a crash
+                return (3, 0)
+            return summary(socks, client, fn(b), mode)
+        tables[name] = [entry(b) for b in range(256)]
     tree = common.parse(repo, 'aiorpcx/socks.py')
     caught = []
     node = common.find(tree, 'SOCKSProxy._connect_one')
